@@ -90,6 +90,8 @@ pub struct Model {
     pub burned: u128,
     pub seeded: bool,
     pub enum_next: u64,
+    /// scripted steps to emit before anything else (exit-all followed by a deposit)
+    pub queue: Vec<Step>,
 }
 
 pub struct VaultScen {
@@ -525,6 +527,33 @@ impl Scenario for VaultScen {
                 adv,
                 fault: Fault::None,
             });
+        }
+        if !self.model.queue.is_empty() {
+            return Some(self.model.queue.remove(0));
+        }
+        // everybody leaves: the borrower and every user redeem all their shares, so that only the
+        // locked minimum liquidity is left (at whatever share price fees and donations produced),
+        // and then somebody deposits again
+        if self.cfg.enum_from.is_none() && o.share > 1000 && rng.chance(1, 30) {
+            ctx.probe("exit_all_then_deposit_scripted");
+            let mut q = vec![];
+            if o.borrower_lp > 0 {
+                q.push(Step {
+                    actor,
+                    op: Op::Loan { router: false, amount: 0, program: vec![Action::WithdrawShares { vault: self.vault.clone(), lp: self.lp.clone(), amount: Uint128::new(o.borrower_lp) }] },
+                    adv: 0,
+                    fault: Fault::None,
+                });
+            }
+            for (u, l) in o.users_lp.iter().enumerate() {
+                if *l > 0 {
+                    q.push(Step { actor: u, op: Op::Withdraw { lp: *l }, adv: 0, fault: Fault::None });
+                }
+            }
+            let amount = match rng.below(4) { 0 => 1, 1 => 1000, _ => rng.edge_amount(ubal / 2).max(1) };
+            q.push(Step { actor, op: Op::Deposit { amount, sent: amount }, adv: 0, fault: Fault::None });
+            self.model.queue = q;
+            return Some(self.model.queue.remove(0));
         }
         // enumeration mode
         if let Some(from) = self.cfg.enum_from {
